@@ -884,6 +884,60 @@ def _xdoc_check(doc, rname, variant):
     return '', None, None
 
 
+XNAME_JOBS = ['paper', 'ab']
+XNAME_DOCS = ['sec', 'eq', 'float', 'thm', 'uni']          # pairwise disjoint label names
+
+
+def xname_others(job):
+    """Job names of the other documents in the directory, by their relation to the current job name:
+    two proper suffix-extensions, a prefix-extension, an unrelated name, a proper suffix of the current name."""
+    return ['supplement-' + job, 'x' + job, job + '2', 'other', job[1:]]
+
+
+def _xnames_check(job, rname):
+    """The directory of document `job` holds the saved files of five other documents whose job names extend /
+    are contained in / are unrelated to `job`; every label of every one of them must resolve in `job`
+    through the real Compile.parse path (which skips only <job>.paux itself)."""
+    pre, cap, owner = {}, {}, {}
+    for name, doc in zip(xname_others(job), XNAME_DOCS):
+        s = saved(doc, rname)
+        if not usable(doc, rname):
+            return 'pool document %s did not render' % doc, None, s['exc']
+        pre[name + '.paux'] = s['paux']
+        for k, v in s['captured'].items():
+            cap[k] = v
+            owner[k] = name
+    body = ['\\section{Own wqz}\\label{own:z}', 'Own \\ref{own:z}.']
+    for i, label in enumerate(cap):
+        body.append('wqr%d \\ref{%s}.' % (i, label))
+    src = '\\documentclass{article}\n\\begin{document}\n%s\n\\end{document}\n' % '\n'.join(body)
+    r = render(src, rname, jobname=job, pre=pre)
+    if r['exc']:
+        return 'processing document %s raised %s' % (job, r['exc']), 'no exception', r['exc']
+    wantv = {k: M.node_view(v) for k, v in cap.items()}
+    got = r['ctx_labels']
+    miss = sorted(set(owner[k] + '.paux' for k in wantv if k not in got))
+    if miss:
+        return ('labels of %s were not restored while processing %s.tex' % (', '.join(miss), job),
+                sorted(wantv), sorted(got))
+    msg = labels_match('exact', wantv, got)
+    if msg:
+        return 'labels of the other documents in the context of %s: %s' % (job, msg), wantv, got
+    anchors = set()
+    for page in r['pages'].values():
+        for href, text in _A_RE.findall(page):
+            anchors.add((html.unescape(href), html.unescape(re.sub(r'<[^>]*>', '', text)).strip()))
+    for label, a in cap.items():
+        want = (str(a['url']), str(a['ref']))
+        if want not in anchors:
+            return ('\\ref{%s} (label of %s.paux) did not render a link' % (label, owner[label]), list(want),
+                    sorted(x for x in anchors if x[1] == want[1] or x[0] == want[0])[:6])
+    B = M.ref_load(r['paux'])
+    if not M.is_data(B) or not isinstance(B[1], dict) or set(B[1]) != {rname} or set(B[1][rname]) != {'own:z'}:
+        return '%s.paux was not written with exactly the document\'s own labels' % job, {rname: ['own:z']}, repr(B)[:200]
+    return '', None, None
+
+
 PREV_FAULTS = ['empty', 'half', 'lastbyte', 'text', 'list', 'other_renderer', 'flip_first_op', 'r_none', 'labelless_flip']
 
 
@@ -958,6 +1012,15 @@ def _real_block(block):
         rep.count('xdoc.' + variant)
         if prob:
             rep.violation({'kind': 'xdoc', 'doc': doc, 'rname': rname, 'variant': variant}, exp, obs, prob)
+    elif kind == 'xnames':
+        _, job, rname = block
+        prob, exp, obs = _xnames_check(job, rname)
+        rep.case(key=block, nontrivial=True, outcome=(block, prob))
+        rep.count('xnames')
+        if prob:
+            rep.violation({'kind': 'xnames', 'job': job, 'rname': rname}, exp, obs, prob)
+        else:
+            rep.sample({'case': {'kind': 'xnames', 'job': job, 'rname': rname}, 'other_paux_files': xname_others(job)})
     elif kind == 'prev':
         _, doc, rname, name = block
         v, fids, prob, exp, obs = _prev_check(doc, rname, name)
@@ -1200,6 +1263,9 @@ def _judge_case(case):
     if kind == 'xdoc':
         prob, exp, obs = _xdoc_check(case['doc'], case['rname'], case['variant'])
         return {'verdict': 'violation' if prob else 'ok', 'fids': [], 'expected': exp, 'observed': obs, 'detail': prob}
+    if kind == 'xnames':
+        prob, exp, obs = _xnames_check(case['job'], case['rname'])
+        return {'verdict': 'violation' if prob else 'ok', 'fids': [], 'expected': exp, 'observed': obs, 'detail': prob}
     if kind == 'prev':
         v, fids, prob, exp, obs = _prev_check(case['doc'], case['rname'], case['fault'])
         return {'verdict': v, 'fids': fids, 'expected': exp, 'observed': obs, 'detail': prob}
@@ -1248,6 +1314,9 @@ def run(tier, seed, rep):
             if not quick or d in ('sec', 'mix', 'uni', 'empty'):
                 for name in PREV_FAULTS:
                     blocks.append(('prev', d, r, name))
+    for job in XNAME_JOBS:
+        for r in RENDERERS:
+            blocks.append(('xnames', job, r))
     ok = usable
     for d in docs + PAIRS:
         for r in RENDERERS:
@@ -1268,12 +1337,12 @@ def run(tier, seed, rep):
         'fault_space_sizes': sizes,
         'flip2_window': ('all bit pairs in bytes [0,%d) + all bit pairs inside [p,p+2) for every opcode position p' % HEAD)
         + ('' if quick else ' + all bit pairs at byte distance <= %d + bytes [0,%d) x whole file' % (DIST, HEAD)),
-        'prev_faults': PREV_FAULTS, 'bfs_ops': bfs_ops(tier), 'bfs_depth': depth,
+        'prev_faults': PREV_FAULTS, 'xnames': {j: xname_others(j) for j in XNAME_JOBS}, 'bfs_ops': bfs_ops(tier), 'bfs_depth': depth,
         'rlimit_as_headroom_bytes': AS_EXTRA, 'alarm_s': TL,
     }
     out = {'exhaustive': True, 'bounds': bounds, 'blocks': len(blocks),
            'transitions': rep.transitions, 'traces_validated_against_impl': rep.traces,
            'floors': {'evaluations': 50000, 'flip1.ref_loads': 1000, 'flip1.ref_garbage': 1000,
-                      'prefix.ref_garbage': 1000, 'rt.restore': 10, 'xdoc.clean': 10, 'bfs.op_P': 50}}
+                      'prefix.ref_garbage': 1000, 'rt.restore': 10, 'xdoc.clean': 10, 'xnames': 4, 'bfs.op_P': 50}}
     out.update(bfs)
     return out
